@@ -375,4 +375,10 @@ def toModelBlock (net : Tree.Net) (diffOf : HeaderFields → Nat) (raw : RawBloc
 def blockOfBytes (net : Tree.Net) (diffOf : HeaderFields → Nat) (bs : List Nat) : Option Btc.Block :=
   (decodeBlockExact bs).map (toModelBlock net diffOf)
 
+/-- `Block::consensus_decode(&mut bytes.as_slice())` as `heartbeat.rs` applies it to the blobs of a
+    `get_successors` response: the first block in the bytes is decoded and whatever follows it is
+    ignored (unlike `consensus::deserialize`, which `send_transaction` uses for its payload). -/
+def blockOfBytesPrefix (net : Tree.Net) (diffOf : HeaderFields → Nat) (bs : List Nat) : Option Btc.Block :=
+  (decodeBlock bs).map (fun p => toModelBlock net diffOf p.1)
+
 end Btc.BlockCodec
